@@ -264,7 +264,7 @@ func (g *Gate) Quiesce(o QOpts) error {
 		b0 := g.Bus.Counter()
 		f0 := g.totalNonFence()
 		cache := g.Svc.VerifCache()
-		if verifhook.BusyCount() != 0 || !g.Svc.VerifIdle() || !cache.VerifIdle() || verifhook.Inflight() != 0 || g.Bus.Inflight() != 0 || verifhook.BusyCount() != 0 {
+		if verifhook.BusyCount() != 0 || verifhook.ConnPendingCount() != 0 || !g.Svc.VerifIdle() || !cache.VerifIdle() || verifhook.Inflight() != 0 || g.Bus.Inflight() != 0 || verifhook.BusyCount() != 0 {
 			continue
 		}
 		if !o.SkipEviction && cache.VerifEvictionPending() != 0 {
